@@ -861,13 +861,12 @@ class GCodeBuilder(GCodeCore):
         # Check the probe target against the bounds while it is still
         # known, then set position to unknown for any axis involved
 
-        self.state._set_axes(target_axes)
+        self.state._user_bounds.validate("axes", target_axes)
         target_axes = target_axes.mask(move.x, move.y, move.z)
 
         # Track parameters and write the statement
 
         self._update_axes(target_axes, params)
-        self._track_move_params(params)
         self.write(statement)
 
     @typechecked
@@ -958,7 +957,6 @@ class GCodeBuilder(GCodeCore):
             for hook in self._hooks:
                 params = hook(origin, target, params, self.state)
 
-        self._track_move_params(params)
         return super()._prepare_move(point, params, comment)
 
     def _prepare_rapid(self,
@@ -977,7 +975,6 @@ class GCodeBuilder(GCodeCore):
                 - (ParamsDict) The updated movement parameters
         """
 
-        self._track_move_params(params)
         return super()._prepare_rapid(point, params, comment)
 
     def _track_move_params(self, params: ParamsDict) -> None:
@@ -1018,7 +1015,13 @@ class GCodeBuilder(GCodeCore):
             params: The movement parameters used in the command
         """
 
-        self.state._set_axes(axes)  # Validates bounds, must go first
+        # Validate everything before committing anything, so that a
+        # rejected command leaves the tracked state untouched
+
+        self.state._user_bounds.validate("axes", axes)
+        self._track_move_params(params)
+
+        self.state._set_axes(axes)
         super()._update_axes(axes, params)
         self.state._set_params(self._current_params)
 
